@@ -6,6 +6,20 @@
 From DV Require Import Base.Prelude Base.Int Base.BitPack Model.Block Model.BlockRun Model.Downres Gen.Consts.
 Local Open Scope N_scope.
 
+(* one step of a labelmap history.  Boxes are in voxels of the level written, aligned to blocks.
+   WRaw: POST raw with mutate (level 0; pyramid refreshed).
+   WBlocks scale downres legal: POST blocks at [scale]; the pyramid is refreshed only if [downres];
+     [legal] = false for the documented illegal combinations (downres with scale > 0, unknown
+     compression), which must be refused and change nothing.
+   WRelabel downres: a split (body split or supervoxel split): a voxel of the box with label l becomes
+     tbl(l, m) where m = 1 inside the split volume (the non-zero voxels of [mask]) and 0 outside; labels
+     without an entry stay.  The table is read off Go's level 0 by the driver and is pinned by the
+     level-0 digest. *)
+Inductive hwrite :=
+| WRaw (ox oy oz : Z) (sz : N * N * N) (ps : list paint)
+| WBlocks (scale : N) (downres legal : bool) (ox oy oz : Z) (sz : N * N * N) (ps : list paint)
+| WRelabel (downres : bool) (ox oy oz : Z) (sz : N * N * N) (mask : list paint) (tbl : list (N * N * N)).
+
 Inductive c14case :=
 | CDown (gx gy gz : N) (bps : list paint) (octs : list (option (list paint)))
         (go_res : res bytes) (go_dec : N)
@@ -13,6 +27,9 @@ Inductive c14case :=
   (* writes: (offset x y z in voxels, size in voxels, paints for that box); window: offset and size at
      scale 0; go_status: HTTP class of each write; go_levels: digest of GET raw at scale 0,1,2.. *)
 | CHttp (maxlevel : N) (writes : list (Z * Z * Z * (N * N * N) * list paint)) (wx wy wz : Z) (wn : N * N * N)
+        (go_status : list N) (go_levels : list (res N))
+  (* a history with the other ways of changing label data (see [hwrite]); bs = the instance's BlockSize *)
+| CHist (maxlevel : N) (bs : N * N * N) (writes : list hwrite) (wx wy wz : Z) (wn : N * N * N)
         (go_status : list N) (go_levels : list (res N)).
 
 Definition res_eqb {A} (eqb : A -> A -> bool) (a b : res A) : bool :=
@@ -72,6 +89,109 @@ Fixpoint levels_from (a : list N) (nx ny nz : N) (k : nat) : list (res N) :=
             end
   end.
 
+(* ---- histories: the state is the list of level arrays over the window ---- *)
+
+Definition zbox := (Z * Z * Z * (Z * Z * Z))%type.   (* low corner, high corner (exclusive) *)
+Definition in_zbox (b : zbox) (x y z : Z) : bool :=
+  let '(x0, y0, z0, (x1, y1, z1)) := b in
+  (Z.leb x0 x && Z.ltb x x1 && Z.leb y0 y && Z.ltb y y1 && Z.leb z0 z && Z.ltb z z1)%Z.
+Definition box_of (ox oy oz : Z) (sz : N * N * N) : zbox :=
+  let '(sx, sy, sz') := sz in (ox, oy, oz, (ox + Z.of_N sx, oy + Z.of_N sy, oz + Z.of_N sz'))%Z.
+
+(* the box at the next level that a refresh recomputes: the blocks of this level that meet the box,
+   halved (Mutation.BlockMutated hands whole blocks to the parent's octant) *)
+Definition up_box (bs : N * N * N) (b : zbox) : zbox :=
+  let '(x0, y0, z0, (x1, y1, z1)) := b in
+  let '(bx, by_, bz) := bs in
+  let lo v s := (Z.div v (Z.of_N s) * Z.of_N s / 2)%Z in
+  let hi v s := (- (Z.div (- v) (Z.of_N s)) * Z.of_N s / 2)%Z in
+  (lo x0 bx, lo y0 by_, lo z0 bz, (hi x1 bx, hi y1 by_, hi z1 bz)).
+
+(* a level array over the window at offset (wx,wy,wz), size n: every voxel through f x y z cur *)
+Definition map_level (a : list N) (wx wy wz : Z) (n : N * N * N) (f : Z -> Z -> Z -> N -> N) : list N :=
+  let '(nx, ny, nz) := n in
+  map (fun pc : N * N => let p := fst pc in
+         f (wx + Z.of_N (p mod nx))%Z (wy + Z.of_N ((p / nx) mod ny))%Z (wz + Z.of_N (p / (nx * ny)))%Z (snd pc))
+      (combine (nseq (nx * ny * nz)) a).
+
+Definition half3 (n : N * N * N) : N * N * N := let '(a, b, c) := n in (a / 2, b / 2, c / 2).
+Definition zhalf (v : Z) : Z := Z.div v 2.
+
+Fixpoint pick2 (l1 l2 : list N) (sel : list bool) : list N :=
+  match l1, l2, sel with
+  | a :: r1, b :: r2, s :: rs => (if s then a else b) :: pick2 r1 r2 rs
+  | _, _, _ => []
+  end.
+
+(* refresh of the levels above [below]: inside the box the vote over the level beneath, outside it
+   the stored value (sizes are even, so downres_labels cannot fail here; a failure empties the level
+   and shows as a digest difference) *)
+Fixpoint refresh (bs : N * N * N) (below : list N) (wx wy wz : Z) (n : N * N * N) (b : zbox) (above : list (list N)) : list (list N) :=
+  match above with
+  | [] => []
+  | cur :: rest =>
+    let '(nx, ny, nz) := n in
+    let b' := up_box bs b in
+    let n' := half3 n in
+    let wx' := zhalf wx in let wy' := zhalf wy in let wz' := zhalf wz in
+    let d := match downres_labels below nx ny nz with Ok lo => lo | _ => [] end in
+    let cur' := pick2 d cur (map (fun v => v =? 1)
+                                 (map_level cur wx' wy' wz' n' (fun x y z _ => if in_zbox b' x y z then 1 else 0))) in
+    cur' :: refresh bs cur' wx' wy' wz' n' b' rest
+  end.
+
+Fixpoint tbl_find (tbl : list (N * N * N)) (l m : N) : option N :=
+  match tbl with
+  | [] => None
+  | (l', m', new) :: r => if (l' =? l) && (m' =? m) then Some new else tbl_find r l m
+  end.
+
+(* levels st = [L0; L1; ..]; geometry of level k: offset floor(w / 2^k), size n / 2^k *)
+Fixpoint at_level (k : nat) (st : list (list N)) (wx wy wz : Z) (n : N * N * N)
+         (f : list N -> Z -> Z -> Z -> N * N * N -> list (list N) -> list (list N)) : list (list N) :=
+  match k, st with
+  | O, a :: rest => f a wx wy wz n rest
+  | S k', a :: rest => a :: at_level k' rest (zhalf wx) (zhalf wy) (zhalf wz) (half3 n) f
+  | _, [] => []
+  end.
+
+Definition hstep (bs : N * N * N) (st : list (list N)) (wx wy wz : Z) (n : N * N * N) (w : hwrite) : list (list N) :=
+  match w with
+  | WRaw ox oy oz sz ps =>
+    at_level 0 st wx wy wz n (fun a wx wy wz n rest =>
+      let b := box_of ox oy oz sz in
+      let a' := map_level a wx wy wz n (fun x y z cur =>
+                  if in_zbox b x y z then paints_at ps (Z.to_N (x - ox)) (Z.to_N (y - oy)) (Z.to_N (z - oz)) 0 else cur) in
+      a' :: refresh bs a' wx wy wz n b rest)
+  | WBlocks scale dr legal ox oy oz sz ps =>
+    if negb legal then st else
+    at_level (N.to_nat scale) st wx wy wz n (fun a wx wy wz n rest =>
+      let b := box_of ox oy oz sz in
+      let a' := map_level a wx wy wz n (fun x y z cur =>
+                  if in_zbox b x y z then paints_at ps (Z.to_N (x - ox)) (Z.to_N (y - oy)) (Z.to_N (z - oz)) 0 else cur) in
+      a' :: (if dr then refresh bs a' wx wy wz n b rest else rest))
+  | WRelabel dr ox oy oz sz mask tbl =>
+    at_level 0 st wx wy wz n (fun a wx wy wz n rest =>
+      let b := box_of ox oy oz sz in
+      let a' := map_level a wx wy wz n (fun x y z cur =>
+                  if in_zbox b x y z then
+                    let m := if paints_at mask (Z.to_N (x - ox)) (Z.to_N (y - oy)) (Z.to_N (z - oz)) 0 =? 0 then 0 else 1 in
+                    match tbl_find tbl cur m with Some l => l | None => cur end
+                  else cur) in
+      a' :: (if dr then refresh bs a' wx wy wz n b rest else rest))
+  end.
+
+Fixpoint zero_levels (n : N * N * N) (k : nat) : list (list N) :=
+  let '(nx, ny, nz) := n in
+  repeat 0 (N.to_nat (nx * ny * nz)) :: match k with O => [] | S k' => zero_levels (half3 n) k' end.
+
+Definition hist_levels (maxlevel : N) (bs : N * N * N) (ws : list hwrite) (wx wy wz : Z) (n : N * N * N) : list (res N) :=
+  map (fun a => Ok (digest a))
+      (fold_left (fun st w => hstep bs st wx wy wz n w) ws (zero_levels n (N.to_nat maxlevel))).
+
+Definition hist_status (ws : list hwrite) : list N :=
+  map (fun w => match w with WBlocks _ _ false _ _ _ _ _ => 1 | _ => 0 end) ws.
+
 (* ---- checks ---- *)
 
 Definition blocks_of (bps : list paint) (octs : list (option (list paint))) (gx gy gz : N)
@@ -112,12 +232,14 @@ Definition model_ok (c : c14case) : bool :=
   | CVote nx ny nz ps go_lo =>
     res_eqb (list_eqb N.eqb) (downres_labels (expand nx ny nz ps) nx ny nz) go_lo
   | CHttp _ _ _ _ _ _ _ _ => true
+  | CHist _ _ _ _ _ _ _ _ _ => true
   end.
 
 (* the property on the implementation's outputs.
    0 holds; 1 panic (HTTP 500 with a recovered panic); 2 Block.Downres result differs from the
    documented down-sampling; 3 DownresLabels differs from the vote; 4 a level read over HTTP differs
-   from the down-sampling of the level below; 5 a legal write or read was refused *)
+   from the down-sampling of the level below (CHist: from the level the history leaves there); 5 a legal
+   write or read was refused, or an illegal option combination accepted *)
 Definition spec_class (c : c14case) : nat :=
   match c with
   | CDown gx gy gz bps octs go_res go_dec =>
@@ -147,6 +269,12 @@ Definition spec_class (c : c14case) : nat :=
     else if existsb (fun s => negb (s =? 0)) go_status then 5%nat
     else if existsb (fun r => match r with Panic => true | _ => false end) go_levels then 1%nat
     else if list_eqb (res_eqb N.eqb) (let '(nx, ny, nz) := wn in levels_from (level0 writes wx wy wz wn) nx ny nz (N.to_nat maxlevel)) go_levels
+    then 0%nat else 4%nat
+  | CHist maxlevel bs writes wx wy wz wn go_status go_levels =>
+    if existsb (fun s => s =? 2) go_status then 1%nat
+    else if negb (list_eqb N.eqb go_status (hist_status writes)) then 5%nat
+    else if existsb (fun r => match r with Panic => true | _ => false end) go_levels then 1%nat
+    else if list_eqb (res_eqb N.eqb) (hist_levels maxlevel bs writes wx wy wz wn) go_levels
     then 0%nat else 4%nat
   end.
 
